@@ -48,6 +48,8 @@ def mk_descs(rng, n, **kw):
             d['close_mode'] = d['close_mode'](rng)
         if callable(d['with_close']):
             d['with_close'] = d['with_close'](rng)
+        if kw.get('debug_log'):
+            d['debug_log'] = rng.random() < kw['debug_log']
         out.append(d)
     return out
 
@@ -60,6 +62,26 @@ def run_desc(d, post=None):
                   close_during_on_close=d.get('close_during_on_close', 0))
     sc.post = post
     sc.desc = d
+    if d.get('debug_log'):
+        # the library logs every frame at DEBUG: run with that level switched on (records go to a null handler)
+        import logging
+        lg = logging.getLogger('pyrsocket')
+        old = (lg.level, lg.propagate, logging.root.manager.disable)
+        logging.disable(logging.NOTSET)          # the harness silences logging globally; the library must see DEBUG enabled
+        lg.setLevel(logging.DEBUG)
+        lg.propagate = False
+        if not any(isinstance(h, logging.NullHandler) for h in lg.handlers):
+            lg.addHandler(logging.NullHandler())
+        orig_fin = sc.rec.finish
+
+        def fin_log():
+            try:
+                orig_fin()
+            finally:
+                lg.setLevel(old[0])
+                lg.propagate = old[1]
+                logging.disable(old[2])
+        sc.rec.finish = fin_log
     if post is None:
         return sc.run()
     # run with a post-phase executed before the loop is torn down
